@@ -158,6 +158,11 @@ def traverse_path_step(obj: Any, segment: str) -> Any:
     """
     if isinstance(obj, dict):
         return obj[segment]
+    if isinstance(obj, DictLikeModel):
+        # A mapping-like model: numeric-looking segments are keys, not indexes.
+        if segment in obj:
+            return obj[segment]
+        return getattr(obj, segment)
 
     # Attempt list/tuple index
     try:
@@ -180,6 +185,10 @@ def assign_path_step(obj: Any, segment: str, value: Any) -> None:
     """
     if isinstance(obj, dict):
         obj[segment] = value
+        return
+    if isinstance(obj, DictLikeModel):
+        # A mapping-like model: numeric-looking segments are keys, not indexes.
+        setattr(obj, segment, value)
         return
 
     # Attempt list/tuple index assignment
@@ -461,7 +470,13 @@ class InMemoryStateStore(Generic[MODEL_T]):
         Returns:
             MODEL_T: A `.model_copy()` of the internal Pydantic model.
         """
-        return self._state.model_copy()
+        snapshot = self._state.model_copy()
+        if isinstance(snapshot, DictLikeModel):
+            # model_copy() shares the private key/value mapping of dict-like
+            # models: give the snapshot its own, or item assignment on the
+            # snapshot would write straight into the store.
+            snapshot._data = dict(snapshot._data)
+        return snapshot
 
     async def set_state(self, state: MODEL_T) -> None:
         """Replace or merge into the current state model.
